@@ -1,9 +1,9 @@
 #!/usr/bin/env python3
-"""tools/preseval.py <dir> <k> : evaluate a behaviour-preserving change produced by a sub-agent (/tmp/wt2-out/<dir>/change<k>.diff):
+"""tools/preseval.py <dir> <k> : evaluate a behaviour-preserving change produced by a sub-agent (/tmp/wt3-out/<dir>/change<k>.diff):
 it must build, vet and pass the suite; every check must stay silent.  Prints the alarms (candidate false alarms)."""
 import os, re, shutil, subprocess, sys, tempfile
 D, k = sys.argv[1], sys.argv[2]
-patch = f"/tmp/wt2-out/{D}/change{k}.diff"
+patch = f"/tmp/wt3-out/{D}/change{k}.diff"
 env = dict(os.environ, GOFLAGS="-mod=mod", GOPROXY="off", GOSUMDB="off", GOTOOLCHAIN="local", GOWORK="off")
 def run(cmd, cwd, timeout=900):
     p = subprocess.run(cmd, cwd=cwd, shell=True, env=env, capture_output=True, text=True, timeout=timeout)
